@@ -288,9 +288,10 @@ class EngineB:
         from .core import run_native
         target = case.native_target or c.qualname
         cands = []
-        for m in getattr(ob, "_models", []) or []:
-            if m:
-                cands.append(m)
+        if case.native_target is None or not case.native_target.startswith("pyvc.frag"):
+            for m in getattr(ob, "_models", []) or []:
+                if m:
+                    cands.append(m)
         if case.pool is not None:
             cands.extend(case.pool())
         seen = set()
@@ -380,7 +381,8 @@ def discharge(rep, kf, contracts, prop_id, tier="quick", seed=0, summaries=None)
                 if cl is None:
                     # the raises clause
                     cl = Clause("no-exception-escapes", None,
-                                native="exc is not None and not isinstance(exc, ALLOWED)")
+                                native="(exc is not None and not isinstance(exc, ALLOWED)) or "
+                                       "(isinstance(result, str) and result.startswith('raised '))")
                     kn = getattr(case, "raises_known", None)
                     if kn:
                         cl.known, cl.restrict = kn
